@@ -46,7 +46,8 @@ Init == i = 1
 Next == i <= Len(Cases) /\ i' = i + 1
 Check == i <= Len(Cases) =>
   LET c == Cases[i]
-      run == RunFrom(c.pieces, 1, <<<<>>>>, S0, <<>>)
+      \* the host supplies one variable of its own, hostv = 10: the inputs may assign it like any global
+      run == RunFrom(c.pieces, 1, Declare(<<<<>>>>, "hostv", 1), Alloc(S0, VInt(10)), <<>>)
       n == Len(run.res)
   IN /\ \A j \in 1..n: run.res[j].k = "unknown" \/ PieceConforms(run.res[j], c.obs[j])
                         \/ PrintT(<<"MISMATCH", c.id, j, ToJson(run.res[j])>>)
